@@ -20,5 +20,7 @@ for s in seeds:
         print("%s: check %s -> %s  %s" % (s, s, "CAUGHT" if fired else "MISSED", (first[0][:220] if first else "")))
     finally:
         subprocess.call(["git", "-C", "/repo", "checkout", "--", "."])
+        # evidence/<id>.json must describe the unchanged tree: re-run the check there
+        subprocess.run([os.path.join(V, "check"), s, "--tier", "quick"], cwd=V, stdout=subprocess.DEVNULL, stderr=subprocess.DEVNULL)
 subprocess.call([sys.executable, os.path.join(V, "tools", "gen_all.py")], stdout=subprocess.DEVNULL)   # regenerate coq/gen from the restored tree
 print(json.dumps(res))
